@@ -386,7 +386,7 @@ def quick_indices(rng):
     for base in range(4 * 16 * 2):
         for s in small:
             idx.add(base * 2048 + s)
-    extra = rng.integers(0, n_configs(), size=8000)
+    extra = rng.integers(0, n_configs(), size=45000)
     idx.update(int(x) for x in extra)
     return sorted(idx)
 
